@@ -168,9 +168,12 @@ def main():
     driver_exe = sys.argv[1]
     lines = [l.rstrip("\n") for l in sys.stdin]
     lines = [l for l in lines if l.strip()]
-    with tempfile.TemporaryDirectory(prefix="c19h-") as wd:
-        for o in process(lines, driver_exe, wd):
-            print(o, flush=True)
+    # bounded batches: one driver process / one harness per 120 cases (memory of the leaking parser, size of
+    # the generated C++), results printed as they become available
+    for k in range(0, len(lines), 120):
+        with tempfile.TemporaryDirectory(prefix="c19h-") as wd:
+            for o in process(lines[k:k + 120], driver_exe, wd):
+                print(o, flush=True)
 
 
 if __name__ == "__main__":
